@@ -412,6 +412,58 @@ func runC07(r *Run) {
 		}
 	})
 
+	r.rule("R8", "a pattern with more parameters than the context can hold never reaches the matcher: registration, mounting and RoutePatternMatch compare the parameter count with the capacity of the value array first (E1)", func() {
+		// capacity of DefaultCtx.values
+		_, st := r.P.Struct("", "DefaultCtx")
+		r.need(st != nil, "DefaultCtx")
+		capN := int64(-1)
+		for i := 0; i < st.NumFields(); i++ {
+			if st.Field(i).Name() == "values" {
+				if arr, ok := st.Field(i).Type().Underlying().(*types.Array); ok {
+					capN = arr.Len()
+				}
+			}
+		}
+		r.need(capN > 0, "DefaultCtx.values is an array")
+		isCapCheck := func(in ssa.Instruction) bool {
+			iff, ok := in.(*ssa.If)
+			if !ok {
+				return false
+			}
+			ci := decompose(iff.Cond)
+			k, isC := constInt(ci.Const)
+			if !isC || (k != capN && k != capN+1) {
+				return false
+			}
+			c, isCall := stripValue(ci.Root).(*ssa.Call)
+			if !isCall || calleeName(&c.Call) != "builtin:len" {
+				return false
+			}
+			sl, isSlice := c.Call.Args[0].Type().Underlying().(*types.Slice)
+			if !isSlice {
+				return false
+			}
+			b, isStr := sl.Elem().Underlying().(*types.Basic)
+			return isStr && b.Info()&types.IsString != 0
+		}
+		for _, spec := range []struct {
+			fn     string
+			escape func(in ssa.Instruction) bool
+			what   string
+		}{
+			{"(*App).register", func(in ssa.Instruction) bool {
+				return isCallTo(in, nameHasSuffix("App).addRoute"))
+			}, "the route is added"},
+			{"(*App).addPrefixToRoute", isReturn, "the re-prefixed route is handed back"},
+			{"RoutePatternMatch", func(in ssa.Instruction) bool { return isCallTo(in, nameHasSuffix("routeParser).getMatch")) }, "the matcher runs"},
+		} {
+			f := r.Fn("", spec.fn)
+			_, hit := reach(entryOf(f), spec.escape, nil, isCapCheck)
+			r.check(hit == nil, spec.fn+":parameter-count-checked", r.fpos(f), fmt.Sprintf("every path compares the number of parameters with %d before %s", capN, spec.what),
+				fmt.Sprintf("%s before the number of parameters was compared with the capacity of the value array (%d): a pattern with more parameters is accepted, and the first matching request writes past the array — index out of range in the request goroutine, which takes the server down", spec.what, capN))
+		}
+	})
+
 	r.rule("R6", "offset accesses are not evaluated ahead of the guard that bounds them (contradiction rule over every function of the module)", func() { offsetGuardRule(r) })
 
 	if r.Tier == "thorough" {
